@@ -370,12 +370,12 @@ Section ScanProofs.
     - destruct (N.eqb x GT) eqn:Hg.
       + (* a definition line: nothing is consumed *)
         unfold idx_line. rewrite Hg. cbn [until_lf strip_cr length].
-        assert (forall f st m, m < f -> repb st (x :: r) m ->
-                 exists st', consume_sequence_line rd cap f st false false 0 0 = (SOk, 0, 0, st')) as Hgen.
-        { induction f as [|f IHf]; intros st m Hm HR; [lia|].
+        assert (forall f st0 m0, m0 < f -> repb st0 (x :: r) m0 ->
+                 exists st', consume_sequence_line rd cap f st0 false false 0 0 = (SOk, 0, 0, st')) as Hgen.
+        { induction f as [|f IHf]; intros st0 m0 Hm HR0; [lia|].
           cbn [consume_sequence_line].
-          pose proof (br_fill_buf_spec rd Rep Hsim cap Hcap st (x :: r) m HR) as Hfb.
-          destruct (br_fill_buf rd cap st) as [[src|] st1].
+          pose proof (br_fill_buf_spec rd Rep Hsim cap Hcap st0 (x :: r) m0 HR0) as Hfb.
+          destruct (br_fill_buf rd cap st0) as [[src|] st1].
           - destruct Hfb as [Hp [Hn _]]. destruct src as [|y w'].
             + exists st1. reflexivity.
             + destruct (prefix_cons y w' _ Hp) as [r' Hd]. injection Hd as Hy _. subst y.
